@@ -203,6 +203,24 @@ func (t *tsImmTableImpl) AddBothTSSPFiles(flushed *bool, m *MmsTables, name stri
 	if len(unorderFiles) != 0 {
 		unorderFs = t.makeTSSPFiles(m, name, false, unorderFiles)
 	}
+	// An out-of-order merge that empties a measurement's list removes the list from the map
+	// (deleteUnorderedFiles). Files appended to a list that was looked up before that would be
+	// published into a list no reader can reach: hold the map from the moment the lists are
+	// known to be the registered ones until the files are in them.
+	for {
+		m.mu.RLock()
+		if (orderFs == nil || m.Order[name] == orderFs) && (unorderFs == nil || m.OutOfOrder[name] == unorderFs) {
+			break
+		}
+		m.mu.RUnlock()
+		if orderFs != nil {
+			orderFs = t.makeTSSPFiles(m, name, true, nil)
+		}
+		if unorderFs != nil {
+			unorderFs = t.makeTSSPFiles(m, name, false, nil)
+		}
+	}
+	defer m.mu.RUnlock()
 	if orderFs != nil {
 		orderFs.lock.Lock()
 		defer orderFs.lock.Unlock()
@@ -226,11 +244,21 @@ func (t *tsImmTableImpl) AddBothTSSPFiles(flushed *bool, m *MmsTables, name stri
 
 func (t *tsImmTableImpl) AddTSSPFiles(m *MmsTables, name string, isOrder bool, files ...TSSPFile) {
 	fs := t.makeTSSPFiles(m, name, isOrder, files)
+	// see AddBothTSSPFiles: the list must still be the registered one when the files go in
+	for {
+		m.mu.RLock()
+		if t.getFiles(m, isOrder)[name] == fs {
+			break
+		}
+		m.mu.RUnlock()
+		fs = t.makeTSSPFiles(m, name, isOrder, nil)
+	}
 
 	fs.lock.Lock()
 	fs.files = append(fs.files, files...)
 	sort.Sort(fs)
 	fs.lock.Unlock()
+	m.mu.RUnlock()
 }
 
 func (t *tsImmTableImpl) addTSSPFile(m *MmsTables, isOrder bool, f TSSPFile, nameWithVer string) {
